@@ -371,13 +371,7 @@ impl ViCut {
 		if !was_normal {
 			// An open Visual/Insert/Replace mode was closed for the user: the cursor has to be
 			// where normal mode can have it, never on the terminator of a non-empty line
-			let buf = self.current_buffer();
-			buf.set_cursor_clamp(true);
-			buf.cursor.set(buf.cursor.get());
-			if buf.grapheme_at_cursor().is_some_and(|gr| gr == "\n")
-				&& buf.grapheme_before_cursor().is_some_and(|gr| gr != "\n") {
-					buf.cursor.sub(1);
-			}
+			self.current_buffer().settle_normal_cursor();
 		}
 	}
 
@@ -604,6 +598,16 @@ impl ViCut {
 			self.current_buffer().stop_selecting();
 			let mut mode: Box<dyn ViMode> = Box::new(ViNormal::new());
 			std::mem::swap(&mut mode, &mut self.mode);
+			// Back in normal mode: the visual cursor may have been past the last character
+			self.current_buffer().settle_normal_cursor();
+		} else if self.mode.report_mode() == ModeReport::Visual {
+			// A selection can include the last character, but the cursor cannot sit behind it
+			let buf = self.current_buffer();
+			let max = buf.cursor.cap();
+			if max > 0 && buf.cursor.get() >= max {
+				buf.cursor.set(max - 1);
+				buf.update_select_range();
+			}
 		}
 		Ok(())
 	}
